@@ -179,7 +179,7 @@ _p("C09", modules=["keylog", "keylog_unbounded", "main_run", "demux", "container
    assumptions=["str.split / str.replace / str.lower / bytes.fromhex behave as in CPython on regular-language-typed strings"],
    trusted_base=["re (pattern semantics translated to z3 RegLan)"],
    bounded=[{"function": "keylog_reader.get_keys_from_string with CPython's real str.replace / str.split (keylog.file_text)", "bound": "<= 3 lines of key-log text", "counted_as": "bounded cross-check; the loop itself is discharged without bound by keylog.unbounded.*"}],
-   not_under_contract=["dpkt_dsb.Reader / DecryptionSecretBlock.unpack (DSB position and byte order)", "QuicSession.set_tls_decryptors' own key-log loop (same comparison through bytes.fromhex)"])
+   not_under_contract=["dpkt_dsb.Reader / DecryptionSecretBlock.unpack (DSB position and byte order)", "dpkt_dsb.DecryptionSecretBlock.unpack field decoding (dpkt's Packet.unpack assumed)"])
 
 _p("C18", modules=["main_run", "demux", "keylog"], level="other",
    technique="contract-based deductive verification of run() against recorder contracts + syntactic frame obligations",
